@@ -189,6 +189,11 @@ func runHdrFtr(c Case, emit Emitter) {
 					if err != nil {
 						return "err-save"
 					}
+					if op.Str("via") == "word" {
+						if b, err = hfWordNames(b); err != nil {
+							return "err-rename"
+						}
+					}
 					d2, err := document.OpenFromMemory(io.NopCloser(bytes.NewReader(b)))
 					if err != nil {
 						return "err-open"
